@@ -3,6 +3,7 @@ package tsm1
 import (
 	"context"
 	"math"
+	"sort"
 
 	vrt "github.com/influxdata/influxdb/v2/internal/zzverifrt"
 )
@@ -66,7 +67,9 @@ func (b *verifMBatch) Commit() error {
 }
 func (b *verifMBatch) Rollback() error { return nil }
 
-var verifSeriesPool = []string{"cpu,host=a", "cpu,host=b", "mem,host=a"}
+// "cpu,host=a!" sorts after "cpu,host=a" as a series key, but its TSM key "cpu,host=a!#!~#v" sorts
+// BEFORE "cpu,host=a#!~#v" ('!' < '#'): series order and index order differ for such pairs.
+var verifSeriesPool = []string{"cpu,host=a", "cpu,host=a!", "cpu,host=b", "mem,host=a"}
 
 // VerifC17_DeleteBatch: one shard with a TSM file and a cache holding points of three series
 // (field v, and a second field w for cpu,host=a); Engine.deleteSeriesRange is called with a batch of
@@ -76,12 +79,19 @@ var verifSeriesPool = []string{"cpu,host=a", "cpu,host=b", "mem,host=a"}
 // still lists its keys.
 func VerifC17_DeleteBatch() {
 	P := vrt.Bound("P", 1)
+	verifSeriesPool := verifSeriesPool[:vrt.Bound("POOL", 3)]
 	bound := func(t int64) {
 		vrt.Assume(t > -4611686018427387904)
 		vrt.Assume(t < 4611686018427387904)
 	}
 	f := &verifMTSM{ts: map[string][]int64{}, tombs: map[string][]TimeRange{}}
-	for _, s := range verifSeriesPool {
+	inFile := map[string]bool{}
+	for si, s := range verifSeriesPool {
+		// which series the file holds (at least the last one, so the file is never empty)
+		if si < len(verifSeriesPool)-1 && vrt.Choose("in_file_"+s, 0, 1) == 0 {
+			continue
+		}
+		inFile[s] = true
 		fields := []string{"v"}
 		if s == "cpu,host=a" {
 			fields = []string{"v", "w"}
@@ -99,6 +109,7 @@ func VerifC17_DeleteBatch() {
 			}
 		}
 	}
+	sort.Strings(f.keys) // TSM index order
 	e := &Engine{Cache: verifNewCache(0), FileStore: &FileStore{files: []TSMFile{f}}}
 	cacheTs := map[string]int64{}
 	for _, s := range verifSeriesPool {
@@ -106,12 +117,25 @@ func VerifC17_DeleteBatch() {
 		t := vrt.Int64("ct_" + k)
 		bound(t)
 		cacheTs[k] = t
-		vrt.Assert(e.Cache.WriteMulti(map[string][]Value{k: {NewIntegerValue(t, 7)}}) == nil, "cache write")
+		// a second point beyond the delete domain keeps the series alive in the cache, so the index
+		// reconciliation never considers dropping the series (that branch needs a series file)
+		vrt.Assert(e.Cache.WriteMulti(map[string][]Value{k: {NewIntegerValue(t, 7), NewIntegerValue(4611686018427387904+5, 8)}}) == nil, "cache write")
 	}
 
 	// the matched series, in the order the series iterator yields them
-	orders := [][]int{{0}, {1}, {2}, {0, 1}, {1, 0}, {2, 0}, {0, 2}, {2, 1}, {1, 2}, {2, 1, 0}, {1, 2, 0}, {0, 1, 2}}
-	order := orders[vrt.Choose("batch", 0, len(orders)-1)]
+	// any non-empty subset of the series, in series-key order or reversed
+	mask := vrt.Choose("batch", 1, 1<<len(verifSeriesPool)-1)
+	var order []int
+	for i := range verifSeriesPool {
+		if mask&(1<<i) != 0 {
+			order = append(order, i)
+		}
+	}
+	if vrt.Choose("batch_reversed", 0, 1) == 1 {
+		for i, j := 0, len(order)-1; i < j; i, j = i+1, j-1 {
+			order[i], order[j] = order[j], order[i]
+		}
+	}
 	matched := map[string]bool{}
 	var batch [][]byte
 	for _, i := range order {
@@ -144,9 +168,10 @@ func VerifC17_DeleteBatch() {
 		vals := e.Cache.Values([]byte(k))
 		inRange := vrt.And(min <= t, t <= max)
 		if matched[series] {
-			vrt.Assert(vrt.Iff(len(vals) == 0, inRange), "cache: a matched series loses exactly its points inside the range")
+			vrt.Assert(vrt.Iff(len(vals) == 1, inRange), "cache: a matched series loses exactly its points inside the range")
+			vrt.Assert(len(vals) >= 1 && len(vals) <= 2, "cache: the point outside the range stays")
 		} else {
-			vrt.Assert(len(vals) == 1, "cache: other series are untouched")
+			vrt.Assert(len(vals) == 2, "cache: other series are untouched")
 		}
 	}
 	vrt.Assert(f.refs == 0, "file references released")
